@@ -177,6 +177,7 @@ pub fn check(rep: &Report) {
     let skipped = std::sync::atomic::AtomicU64::new(0);
     jobs.par_iter().for_each(|(a, p)| {
         if std::time::Instant::now() > deadline { skipped.fetch_add(1, std::sync::atomic::Ordering::Relaxed); return; }
+        crate::engine::crumb::set_job(&format!("C01 anchor={a:?} positions={p:?}"));
         let mut st = Stats::default();
         let mut local = vec![];
         // k=3 sets in thorough: bound 2 to keep the run inside the wall cap; everything else at `dev`
@@ -184,12 +185,14 @@ pub fn check(rep: &Report) {
         explore_deviations(|ch| run_case(rep, ch, *a, p, &mut local), d, &mut st);
         rep.cases_bulk(&local);
         stats.lock().unwrap().merge(&st);
+        crate::engine::crumb::clear();
     });
     // full encoding product (4096 encodings) on representative single-cell / two-cell sheets with fixed kinds
     let reps: Vec<((u32, u32), Vec<(u32, u32)>)> = ANCHORS.iter().flat_map(|a| vec![(*a, vec![(0u32, 0u32)]), (*a, vec![(1, 2)]), (*a, vec![(0, 1), (2, 3)]), (*a, vec![(1, 0), (1, 1)])]).collect();
     reps.par_iter().for_each(|(a, p)| {
         let mut st = Stats::default();
         let mut local = vec![];
+        crate::engine::crumb::set_job(&format!("C01 full-encoding-product anchor={a:?} positions={p:?} (choices exclude the pinned kinds)"));
         for kind in [0usize, 2, 3, 7] {
             // kinds fixed through a wrapper chooser: the first |p| choices are pinned
             let pinned: Vec<u32> = p.iter().map(|_| kind as u32).collect();
@@ -202,6 +205,7 @@ pub fn check(rep: &Report) {
         }
         rep.cases_bulk(&local);
         stats.lock().unwrap().merge(&st);
+        crate::engine::crumb::clear();
     });
     let st = stats.lock().unwrap();
     rep.add_states(st.nodes, st.edges);
